@@ -187,7 +187,7 @@ class CoreGen(progs.ProgGen):
             return out + "⟩"
         if k == 11 and not indef and not pure:
             name = r.choice(self.fnames)
-            params = r.choice(["", ":1", ":2", ":1:1", ":0", ":3", ":p", ":p:q", ":1:p", ":p:2", ":p:p"])
+            params = r.choice(["", ":1", ":2", ":1:1", ":0", ":3", ":p", ":p:q", ":1:p", ":p:2", ":p:p", ":*", ":p:*", ":*:1"])
             saved, self.fn_locals = self.fn_locals, [x for x in ("p", "q") if x in params]
             try:
                 body = self.seq(d - 1, True, False)
@@ -218,8 +218,11 @@ SEEDS = [
     "@f:1|:[‹@f;];3@f;W", "3→a {←a|←a, ←a‹→a}", "1 2 3 ^ W", "3 4 $ W", "1 : D W", "⟨⟨1|2⟩|3⟩ f ∑", "120 Ṙ", "⟨1|2⟩ 3 J 4 J L",
     "1 2 λ2|__-;†", "1 2 3 λ3|___\";†", "4 5 λ2|$_!;†", "@f:2|__-;1 2@f;", "1 2 ₌λ2|__-;λ2|__\";", "7 8 9 @f:3|___W;@f;",
     "@f:p|←p d;5@f;", "@f:p:q|←p ←q -;1 2@f;", "@f:1:p|←p +;1 2@f;", "@f:p:2|←p W;1 2 3@f;", "@f:p:p|←p;1 2@f;W", "3→p @f:p|←p;5@f;←p W",
+    "@f:*|W;7 8 9 2@f;", "@f:*|W;7 8 9 0@f;", "@f:*|W;7 8 9 1@f;", "@f:*|W;2@f;", "@f:p:*|←p W;7 8 9 2 5@f;", "@f:*:1|W;6 7 8 9 2@f;", "@f:*|n;7 8 2@f;",
+    "@f:*|W;7 8 9 1N@f;", "@f:*|W;⟨1⟩@f;",
     "@f:p|←p λ5;† +;4@f;", "@f:p|n ←p;4@f;W", "@f:p|;4@f;W", "@f:p|?;4@f;", "@f:p|_ _;4@f;W", "⟨3|1|2⟩µN;", "⟨3|1|2⟩µ;", "312µ;", "⟨3|1|2⟩µ,0;",
     "⟨⟨3⟩|⟨1|5⟩|⟨2⟩⟩µL;", "⟨3|1|2⟩ λN; ṡ", "⟨3|1|2⟩ λ2<; ṡ",
+    "3 {:|n,‹}", "5 {:2>|n,‹}", "2 {:|n 2(n,)_‹}", "3 {:|λn;†,‹}", "2{:|⟨n|n⟩,‹}",
     "10 λ2|n;†", "1 2 λ2|n W;†", "3 4 @f:2|n;@f;", "@f:2|!;1@f;", "@f:0|n;@f;", "λ0|!;†", "3 λ0|?;†", "⟨?|?⟩", "5 ƛ⟨n|n⟩;",
 ]
 
@@ -391,8 +394,6 @@ DOCUMENTED = [
      "Structures.md (If Statement): a function popped as the condition is called first, repeatedly, and its result is tested: λ0; is falsey"),
     ("λ3;(n,)", [], "", "1\n2\n3\n", "C01:function-valued-condition",
      "Structures.md (For Loop): a function popped as the iterable is called first and its result iterated: λ3; gives the range 1..3"),
-    ("@f:*|W;3 1 2 3@f;", [], "", None, "C01:star-parameter",
-     "Structures.md (Function Parameters): `*` is a parameter form; calling such a function must not fail before its body runs"),
 ]
 
 
@@ -458,8 +459,9 @@ def build_items(env):
 
 
 def run(env):
-    env.rule = ("programs of the core grammar (generator CoreGen: number literals, the 36 core elements, variables, function definitions / "
-                "calls, if / for / while, lambdas λ ƛ ' and shorthands ⁽ ‡ ≬, list literals, modifiers v & ~ ß ƒ ɖ ₌ ₍; nesting depth <= 3 quick, "
+    env.rule = ("programs of the core grammar (generator CoreGen: number literals, the 37 core elements, variables, function definitions / "
+                "calls with numeric / named / * parameters, if / for / while, lambdas λ ƛ ' µ and shorthands ⁽ ‡ ≬, list literals, modifiers "
+                "v & ~ ß ƒ ɖ ₌ ₍; nesting depth <= 3 quick, "
                 "<= 4 thorough) plus hand-written seeds; each run = program x input list (8 lists of small ints / int lists) x one of the nine "
                 "flag sets; compared: final stack (top popped by the implicit output), stdout, error class. (1) Machine.exec vs implementation "
                 "-> disagreement; (2) RefSem.eval vs implementation -> the property fails; (3) exact text of transpile(). Both models are "
@@ -558,12 +560,13 @@ def run(env):
     env.sample({"theorem": "C01_compile_correct: core_ok_list false p = true -> exec cf fuel false p s = eval cf fuel p s"})
     env.assume("CPython executes the emitted lines as Model/Machine.v says (the principal modelled-not-verified link; validated on every "
                "run by correspondence (1), and the emitted text itself by (3) against Model/Transpile.v)")
-    env.assume("the semantics of the 36 core elements and of the 8 modifier bodies (Model/Values.v) is shared by both evaluators: its fidelity is "
+    env.assume("the semantics of the 37 core elements and of the 8 modifier bodies (Model/Values.v) is shared by both evaluators: its fidelity is "
                "checked by correspondence only; their template texts and arities are a proof obligation over the regenerated table (C01_templates)")
     env.assume("lazy evaluation: maps / filters / vectorised calls are evaluated eagerly in the model; where that could be observed (a lazily "
                "applied body that prints, reads or writes register / variables / input, or function values among the arguments) and where a "
                "function value reaches arithmetic, a test or a printer, the model answers EStuck and the run is not compared (counted in outcomes)")
     env.assume("integers and finite lists only (C13 covers the identification of finite lazy lists with lists); numbers below 10^40 when printed; "
                "ranges up to 5000; stdin empty; fuel 60 nesting levels / while iterations, out-of-fuel runs are not compared")
-    env.assume("function-valued conditions / iterables are outside the model (Structures.md says they are called first, the implementation treats "
-               "them as true / fails): reported in the design notes, not compared")
+    env.assume("a function value as the condition of an if / the iterable of a for is outside BOTH models (EStuck): Structures.md says it is called "
+               "first, the implementation takes it as true / raises TypeError -- known finding C01-function-valued-condition, asserted on the "
+               "implementation directly by the documented-expectation oracle (DOCUMENTED), not through the models")
